@@ -8,13 +8,13 @@ INFO = {
     "rule": "every exportable term of the fragment (all fixed-width integers and floats, Int24, VarInt, Bytes, GreedyBytes, the four string "
             "macros x encodings, Flag, Enum, FlagsEnum, Const, Padding, nested Struct, Array with constant and this-count, GreedyRange, "
             "RepeatUntil, Prefixed x 3 length fields, PrefixedArray, If, IfThenElse, BitStruct, Pointer, NullTerminated variants, "
-            "NullStripped, FixedSized, Padded, Rebuild/Default/Hex/HexDump/docs pass-through; depth <=2 quick, <=3 thorough) x up to 3 "
+            "NullStripped, FixedSized, Padded, Rebuild/Default/Hex/HexDump/docs pass-through; depth <=2 quick, <=3 thorough) x up to 4 (quick) / 100 (thorough: every distinct-valued one found among the value domain and all strings over 5 bytes up to length 4) "
             "canonical encodings: export_ksy() is called (the schema dict is captured by a ruamel.yaml stand-in) and interpreted with "
             "Kaitai semantics on the bytes. Oracle: ids appear in declaration order under the member names; every named field has the "
             "byte extent construct uses (from the reference interpreter's read log) and the scalar value construct parses; the total "
             "extent agrees. A schema that is contradictory or omits a layout fact is reported as its own signature. non-trivial = "
             "schema interpreted to the end and fields compared; distinct = (term, encoding)",
-    "bounds": {"quick": {"depth": 2}, "thorough": {"depth": 3}},
+    "bounds": {"quick": {"depth": 2, "inputs": 4, "pool": 60}, "thorough": {"depth": 3, "inputs": 100, "pool": 100}},
     "trusted_base": ["mc/ksy.py (interpreter for the emitted dialect, Kaitai Struct semantics)", "mc/ref.py read log for construct's field extents",
                      "mc/shim/ruamel/yaml.py captures the schema dict (ruamel.yaml is absent; the property is about the dict, not YAML text)"],
     "assumptions": ["member names avoid the exporter's auxiliary ids (x, data, lengthfield, countfield, thenvalue, elsesubcon)"],
@@ -158,7 +158,7 @@ def export(d):
 SIG = [0x00, 0x01, 0x02, 0x03, 0x61, 0x80, 0xff]
 
 
-def canon_inputs(t, d, limit=4):
+def canon_inputs(t, d, limit=4, pool=60):
     out = []
     seen_vals = set()
     a = G.attrs(t)
@@ -193,7 +193,7 @@ def canon_inputs(t, d, limit=4):
             out.append(x)
         except Exception:
             continue
-        if len(out) >= 60:
+        if len(out) >= pool:
             break
     if not out:
         return []
@@ -392,7 +392,7 @@ def run_unit(unit, tier):
             r.violation("C19/export-raises-%s/%s" % (type(e).__name__, T.sig_of(t, 3)), {"term": t, "data": b""}, "%s.export_ksy() raised %r" % (T.show(t), e))
             continue
         tsig = T.sig_of(t, 3)
-        datas = canon_inputs(t, d)
+        datas = canon_inputs(t, d, INFO["bounds"][tier]["inputs"], INFO["bounds"][tier]["pool"])
         for data in datas:
             r.states += 1
             oc, vs = check(t, d, schema, data, tsig)
